@@ -116,6 +116,11 @@ def norm_menu(w):
     return m
 
 
+# identifiers that contain the metacharacters of string templates: unknown-pid calls answer with the documented class
+PCT_ARGS = dict(pids=["doi%3A10.5063%2FF1", "100%", "a%sb{0}"], contents=[C_ONE, C_MULTI], formats=[None, "%s"],
+                sym_dirs=False)
+
+
 def om(w):
     import hashlib
     c = w.contents[0]
@@ -127,7 +132,7 @@ def main(tier, replay_payload=None):
     w_args = universe(tier)
     from props import C17_xh
     kf = lambda: C17_xh.kernels(tier)
-    parts = dict(main=(w_args, menu_fn), norm=(NORM_ARGS, norm_menu))
+    parts = dict(main=(w_args, menu_fn), norm=(NORM_ARGS, norm_menu), percent=(PCT_ARGS, norm_menu))
     if replay_payload is not None:
         return make_multi_replayer(parts, kf)(replay_payload)
     run = report.Run("C17", tier, technique="pathsym inductive step over an invalid-argument grammar (no mutating "
@@ -137,6 +142,7 @@ def main(tier, replay_payload=None):
     collect(run, res, MINE, w_args, menu_fn)
     collect(run, step.explore_steps(NORM_ARGS, norm_menu), MINE | {"other-pid-references-changed"}, NORM_ARGS, norm_menu,
             part="norm")
+    collect(run, step.explore_steps(PCT_ARGS, norm_menu), MINE, PCT_ARGS, norm_menu, part="percent")
     run.functions = loader.function_lines(loader.load(), API_FUNCS + [
         "FileHashStore._check_string", "FileHashStore._check_integer", "FileHashStore._check_arg_data",
         "FileHashStore._check_arg_algorithms_and_checksum", "FileHashStore._check_arg_format_id",
